@@ -41,6 +41,8 @@ def main():
     if "--all" in args:
         m = json.load(open(os.path.join(VERIF, "MANIFEST.json")))
         props = [c["property_id"] for c in m["checks"]]
+    if "--no-checks" in args:
+        props = []
     if props is None:
         props = [pid]
     name = re.sub(r"[^A-Za-z0-9_]", "_", os.path.basename(os.path.dirname(seed)) + "_" + os.path.basename(seed))
